@@ -7,7 +7,7 @@ MODULES = {"fmedit": dict(harness=c06.HARNESS, entries=c06.ENTRIES), "fblock": d
 prepare = fblock.prepare
 ENGINE_ONLY_AIDS = ("C11-shared", "C11-shared-assign", "C11-shared-copies", "C11-independent", "C11-clone-shared")
 BOUNDS = {
-    "quick": {"block_level": "Clone() of all registered block types on symbolic input (B=1, L=256, 5 s per type): equal bytes, disjoint heap, survives the source", "models": "OB/FO3/SK/SSE/FO4/FO76 API-built models (NiTriShape and BSTriShape families), skinned/unskinned, with collision/extra data/controller", "copies": "copy constructor and copy assignment", "edits_on_copy": "delete vertex, set vertices + rename, delete shape, delete block + sort, SetTriangles/UpdateBounds through the shape object", "destruction_order": "source first / copies first"},
+    "quick": {"block_level": "Clone() of all registered block types on symbolic input (B=1, L=256, 7 s per type): equal bytes, disjoint heap, survives the source", "models": "OB/FO3/SK/SSE/FO4/FO76 API-built models (NiTriShape and BSTriShape families), skinned/unskinned, with collision/extra data/controller", "copies": "copy constructor and copy assignment", "edits_on_copy": "delete vertex, set vertices + rename, delete shape, delete block + sort, SetTriangles/UpdateBounds through the shape object", "destruction_order": "source first / copies first"},
     "thorough": {"models": "all feature combinations incl. symbolic vertex payload", "copies": "as quick", "edits_on_copy": "as quick", "destruction_order": "both"},
 }
 ASSUMPTIONS = [
@@ -38,7 +38,7 @@ def jobs(tier, seed):
             for kind in (0, 1):
                 J.append(dict(entry="h_c11", args=[ver, feat, edit, (edit + kind) % 2, kind], budget=bud, mod="fmedit"))
     # block level: Clone() of every registered block type on symbolic input (NifFile's copy clones every block)
-    J += [dict(j, mod="fblock") for j in fblock.jobs_for("h_clone", tier, seed, budget_quick=5, budget_thorough=90)]
+    J += [dict(j, mod="fblock") for j in fblock.jobs_for("h_clone", tier, seed, budget_quick=7, budget_thorough=90)]
     return J
 
 
